@@ -158,6 +158,7 @@ private:
        (components==proxy.suv1.components ||
         (traits::vector_arity==2 && components==proxy.suv2.components))) //beware of aliasing
       return(WrapperType::apply(*this,static_cast<SU_vector>(proxy))); //evaluate via a temporary
+    SU_vector* robbed=nullptr; //operand whose storage this vector takes over, if any
     //check whether sizes match
     if(!traits::equal_target_size && this->size!=proxy.suv1.size){
       if(isinit_d) //can't resize
@@ -174,16 +175,20 @@ private:
         ptr_offset=proxy.suv1.ptr_offset;
         isinit=proxy.suv1.isinit;
         isinit_d=proxy.suv1.isinit_d;
-        if(isinit)
-          const_cast<SU_vector&>(proxy.suv1).isinit=false; //complete the theft
+        if(isinit){
+          robbed=const_cast<SU_vector*>(&proxy.suv1);
+          robbed->isinit=false; //complete the theft
+        }
       }
       else if(proxy.mayStealArg2()){ //if the operation is component-wise and suv2 is an rvalue
         components=proxy.suv2.components; //take suv2's backing storage
         ptr_offset=proxy.suv2.ptr_offset;
         isinit=proxy.suv2.isinit;
         isinit_d=proxy.suv2.isinit_d;
-        if(isinit)
-          const_cast<SU_vector&>(proxy.suv2).isinit=false; //complete the theft
+        if(isinit){
+          robbed=const_cast<SU_vector*>(&proxy.suv2);
+          robbed->isinit=false; //complete the theft
+        }
       }
       else{
         alloc_aligned(dim,size,components,ptr_offset);
@@ -192,6 +197,11 @@ private:
     }
     //evaluate in place
     proxy.compute(detail::vector_wrapper<WrapperType>{dim,components});
+    if(robbed){ //the operand has been read; it must not keep referring to storage it no longer owns
+      robbed->dim=0;
+      robbed->size=0;
+      robbed->components=nullptr;
+    }
     return(*this);
   }
   
@@ -317,9 +327,16 @@ public:
     else
       alloc_aligned(dim,size,components,ptr_offset);
     
-    if(components==proxy.suv1.components && proxy.suv1.isinit)
+    bool robbed=(components==proxy.suv1.components && proxy.suv1.isinit);
+    if(robbed)
       const_cast<SU_vector&>(proxy.suv1).isinit=false; //complete the theft
     proxy.compute(detail::vector_wrapper<detail::AssignWrapper>{dim,components});
+    if(robbed){ //the operand has been read; it must not keep referring to storage it no longer owns
+      SU_vector& source=const_cast<SU_vector&>(proxy.suv1);
+      source.dim=0;
+      source.size=0;
+      source.components=nullptr;
+    }
   }
 
   ///\brief Construct an SU_vector from a GSL matrix
